@@ -15,6 +15,7 @@
 EXTENDS Integers, Sequences, FiniteSets, TLC
 
 Ty(k, n, a) == [k |-> k, n |-> n, a |-> a]
+TFloat == Ty("float", "", <<>>)
 TInt == Ty("int", "", <<>>)    TBool == Ty("bool", "", <<>>)   TStr == Ty("str", "", <<>>)   TVoid == Ty("void", "", <<>>)
 TArr(t) == Ty("arr", "", <<t>>)
 TAny == Ty("any", "", <<>>)                \* type of an empty array literal's elements
@@ -83,6 +84,7 @@ TypesOf(P, G, es, k, acc) == IF k > Len(es) THEN acc ELSE TypesOf(P, G, es, k + 
 
 TypeOf(P, G, e) ==
    CASE e.k = "int" -> TInt
+     [] e.k = "float" -> TFloat
      [] e.k = "bool" -> TBool
      [] e.k = "str" -> TStr
      [] e.k = "var" -> LookupT(P, G, e.s).t
@@ -95,8 +97,8 @@ TypeOf(P, G, e) ==
                       IF IsErr(l) THEN l ELSE IF IsErr(r) THEN r
                       ELSE IF e.s \in ArithOpsT THEN
                            (IF l = TInt /\ r = TInt THEN TInt ELSE IF e.s = "+" /\ l = TStr /\ r = TStr THEN TStr ELSE Err("operand"))
-                      ELSE IF e.s \in CmpOpsT THEN (IF l = TInt /\ r = TInt THEN TBool ELSE Err("operand"))
-                      ELSE IF e.s \in {"==", "!="} THEN (IF l = r /\ l.k \in {"int", "bool", "str", "enum"} THEN TBool ELSE Err("operand"))
+                      ELSE IF e.s \in CmpOpsT THEN (IF (l = TInt /\ r = TInt) \/ (l = TFloat /\ r = TFloat) THEN TBool ELSE Err("operand"))
+                      ELSE IF e.s \in {"==", "!="} THEN (IF l = r /\ l.k \in {"int", "bool", "str", "enum", "float"} THEN TBool ELSE Err("operand"))
                       ELSE IF e.s \in {"and", "or"} THEN (IF l = TBool /\ r = TBool THEN TBool ELSE Err("operand"))
                       ELSE Err("operand")
      [] e.k = "ifx" -> LET c == TypeOf(P, G, e.a[1])  a == TypeOf(P, G, e.a[2])  b == TypeOf(P, G, e.a[3]) IN
